@@ -22,7 +22,12 @@ def build(tier=None):
         _built["r"] = (None, e2, d1 + d2)
         return _built["r"]
     _built["gen"], _built["prog"] = g, p
-    _built["r"] = ("ok", "", d1 + d2)
+    r, e3, d3 = vlib.build_harness("rt")
+    if r is None:
+        _built["r"] = (None, e3, d1 + d2 + d3)
+        return _built["r"]
+    _built["rt"] = r
+    _built["r"] = ("ok", "", d1 + d2 + d3)
     return _built["r"]
 
 
@@ -30,14 +35,22 @@ def run_impl(lines):
     env = dict(vlib.ENV)
     env["CARGO_MANIFEST_DIR"] = os.path.join(vlib.VERIF, "harness", "gen")
     out = [None] * len(lines)
-    groups = {"ir": [], "grp": [], "prog": []}
+    groups = {"ir": [], "grp": [], "prog": [], "rt": []}
+    lint = []
     for i, l in enumerate(lines):
         m = int(l.split()[0])
-        groups["ir" if m == 1 else "grp" if m == 4 else "prog"].append(i)
+        if m == 103:
+            lint.append(i)
+            continue
+        groups["ir" if m == 1 else "grp" if m == 4 else "rt" if 10 <= m <= 19 else "prog"].append(i)
+    if lint:
+        res = lint_probe([lines[i] for i in lint])
+        for j, i in enumerate(lint):
+            out[i] = res[j]
     for k, idxs in groups.items():
         if not idxs:
             continue
-        exe = [_built["gen"], k] if k != "prog" else _built["prog"]
+        exe = _built["prog"] if k == "prog" else _built["rt"] if k == "rt" else [_built["gen"], k]
         res = vlib.run_lines(exe, [lines[i] for i in idxs], env=env)
         crashed = [j for j, o in enumerate(res) if o is None or o.startswith("!CRASH")]
         for j in crashed[:50]:
@@ -255,3 +268,91 @@ def ir_monitor(l, impl_rows):
         if has_okout_param != (w_tail == 3) or has_okout_param != (i_tail == 5) or has_okout_param != (i_okout == 1):
             fails.append("m%d: ok_out parameter=%s wrapper tail=%d decoder tail=%d slot passed=%d do not belong together" % (k, has_okout_param, w_tail, i_tail, i_okout))
     return fails[:4]
+
+
+# ------------------------------------------------------------------------------------------ rustc's FFI lints as oracle
+def lint_probe(lines):
+    """re-compile the REAL expansions of the encoded traits under #![deny(improper_ctypes_definitions, improper_ctypes)];
+    returns per line '1 # fails=-' (rustc accepts every signature) or '0 # fails=-' (an FFI lint fired on that trait)"""
+    import re
+    env = dict(vlib.ENV)
+    env["CARGO_MANIFEST_DIR"] = os.path.join(vlib.VERIF, "harness", "gen")
+    d = os.path.join(vlib.CACHE, "ffi_probe")
+    os.makedirs(os.path.join(d, "src"), exist_ok=True)
+    rc, src, e, _ = vlib.sh([_built["gen"], "render"], inp="\n".join(lines) + "\n", env=env, timeout=120)
+    if rc != 0:
+        return ["!CRASH render failed"] * len(lines)
+    defs = os.path.join(d, "defs.rs")
+    open(defs, "w").write(src)
+    rc, exp, e, _ = vlib.sh([_built["gen"], "expand", defs], env=env, timeout=300)
+    if rc != 0:
+        return ["!CRASH expansion failed " + e[-200:]] * len(lines)
+    head = ("#![deny(improper_ctypes_definitions, improper_ctypes)]\n#![allow(unused, dead_code, unused_imports, clippy::all)]\n"
+            "use cglue::prelude::v1::*;\nuse cglue::*;\n#[repr(C)]\n#[derive(Clone, Copy)]\npub struct Pod { pub a: u8, pub b: u32, pub c: i64 }\n")
+    body = head + exp
+    open(os.path.join(d, "src", "lib.rs"), "w").write(body)
+    open(os.path.join(d, "Cargo.toml"), "w").write('[package]\nname = "ffi_probe"\nversion = "0.0.0"\nedition = "2018"\n\n[workspace]\n\n[dependencies]\ncglue = { path = "/repo/cglue" }\n')
+    try:
+        import shutil
+        shutil.copy(os.path.join(vlib.REPO, "Cargo.lock"), os.path.join(d, "Cargo.lock"))
+    except OSError:
+        pass
+    rc, o, e, dt = vlib.sh("timeout 1200 cargo build --offline --message-format=short", cwd=d, timeout=1230)
+    # map source lines to items
+    item_at = []
+    cur = -1
+    for ln in body.split("\n"):
+        m = re.match(r"// @@ITEM (\d+)", ln)
+        if m:
+            cur = int(m.group(1))
+        item_at.append(cur)
+    verdict = {k: "1" for k in range(len(lines))}
+    other = []
+    for ln in e.split("\n"):
+        m = re.match(r"src/lib.rs:(\d+):\d+: (error[^:]*): (.*)", ln)
+        if m:
+            k = item_at[min(int(m.group(1)) - 1, len(item_at) - 1)]
+            if "not FFI-safe" in m.group(3) or "improper_ctypes" in m.group(3):
+                verdict[k] = "0"
+            elif k >= 0:
+                other.append((k, m.group(3)[:120]))
+    res = []
+    for k in range(len(lines)):
+        o_ = [x for kk, x in other if kk == k]
+        res.append("%s # fails=%s" % (verdict[k], ("does_not_compile:" + o_[0].replace(" ", "_")) if o_ else "-"))
+    return res
+
+
+REF_RETS = (2, 3, 5, 8, 10)      # returning a reference from a by-value receiver is not valid Rust (no lifetime to borrow from)
+
+
+def lint_cases(rng, tier):
+    """traits packing every argument shape and every return shape of the grammar (well-formed: rustc must accept) and the shapes outside
+    it (CResult with an error type without C repr: rustc must reject, and so must the model)"""
+    cases = []
+    for ti in (0, 1):
+        for recv in (0, 1, 2):
+            rows = [method_row(recv, 0, 1, 2, [(s, (s + 2) % 9)]) for s in range(12)]
+            cases.append("103 %d | %s" % (ti, " ; ".join(" ".join(map(str, r)) for r in rows)))
+            for im in (0, 1, 2):
+                rows = [method_row(recv, im, ret, (ret + 1) % 9, [(0, 3)]) for ret in range(13) if wf(ti, im, ret) and not (recv == 2 and ret in REF_RETS)]
+                cases.append("103 %d | %s" % (ti, " ; ".join(" ".join(map(str, r)) for r in rows)))
+    # the unsafe side: io::Error results that are NOT turned into integer codes
+    for recv in (0, 1):
+        cases.append("103 0 | " + " ".join(map(str, method_row(recv, 0, 12, 2, []))))
+        cases.append("103 1 | " + " ".join(map(str, method_row(recv, 2, 12, 3, [(1, 0)]))))
+    n = 6 if tier == "quick" else 60
+    for _ in range(n):
+        ti = rng.below(2)
+        rows = []
+        for _ in range(rng.range(1, 6)):
+            while True:
+                recv, im, ret = rng.below(3), rng.below(3), rng.below(13)
+                if wf(ti, im, ret) and not (recv == 2 and ret in REF_RETS):
+                    break
+            # methods returning a reference cannot take arguments with elided lifetimes (the generated fn-pointer type would need
+            # a named lifetime: a compile error of the macro, i.e. outside the supported grammar)
+            shapes = [0, 4, 6, 9] if ret in REF_RETS else list(range(12))
+            rows.append(method_row(recv, im, ret, rng.below(9), [(rng.choice(shapes), rng.below(9)) for _ in range(rng.range(0, 3))]))
+        cases.append("103 %d | %s" % (ti, " ; ".join(" ".join(map(str, r)) for r in rows)))
+    return cases, {"lint_traits": len(cases)}
